@@ -2,5 +2,18 @@
 package engines
 
 import (
+	_ "verifharness/engines/asn1eng"
+	_ "verifharness/engines/cteng"
+	_ "verifharness/engines/grapheng"
+	_ "verifharness/engines/jsoneng"
 	_ "verifharness/engines/lrueng"
+	_ "verifharness/engines/pkieng"
+	_ "verifharness/engines/revoceng"
+	_ "verifharness/engines/rsaeng"
+	_ "verifharness/engines/sigeng"
+	_ "verifharness/engines/tlsfaulteng"
+	_ "verifharness/engines/tlskdfeng"
+	_ "verifharness/engines/tlslogeng"
+	_ "verifharness/engines/tlspaireng"
+	_ "verifharness/engines/x509eng"
 )
